@@ -237,7 +237,9 @@ func (g *WeightedUndirectedGraph) RemoveLine(fid, tid, id int64) {
 	if yid < xid {
 		xid, yid = yid, xid
 	}
-	g.lineIDs[xid][yid].Release(id)
+	if g.lineIDs[xid][yid] != nil {
+		g.lineIDs[xid][yid].Release(id)
+	}
 }
 
 // RemoveNode removes the node with the given ID from the graph, as well as any edges attached
